@@ -10,6 +10,7 @@ import CallbagModel.Closed.ProgTerm
 import CallbagModel.Inv.ConcatN
 import CallbagModel.Closed.Prog3
 import CallbagModel.Closed.LinearInf
+import CallbagModel.Closed.LinearCost
 /-!
 # C06 — iterable programming: pull pipelines compute the corresponding list function
 
@@ -282,5 +283,37 @@ theorem C06_take_over_unbounded_stops {ι : Type} (next : ι → Option (Int × 
 theorem C06_unbounded_safe {ι : Type} (next : ι → Option (Int × ι)) (it0 : ι) (ss : List Closed.Stg) :
     ∀ s, SReach (Closed.thenM (Closed.chainIM next it0 ss) Closed.forEachM).M s → Safe s ∧ SafeFor 4 s ∧ SafeFor 5 s :=
   Closed.linearInf_safe next it0 ss
+
+/-! ## "The iterator is advanced only on demand": the cost, on the machines, for every linear program
+
+`nexts` is from_iter's ghost counter of `Iterator::next` calls inside the network; `(sem p none).2` is the cost of the demand semantics
+(the L1 theorems at the top of this file are about it).  `Inv/ComposeCost.lean`: a demand transformer per stage mirroring `sem`
+(`Stg.up`: map/scan keep the demand; `filter q`: `needFor q d ys`; `skip n`: `d + n`; `take n`: `min n d`), an upper bound conditional on
+the sink's demand (`HeadUp`: each stage pulls upstream only while it still wants items) and a lower bound at rest (`HeadLow`), both
+composed through `compose` by the projection with traces. -/
+
+/-- never more advances than the demand semantics says, and exactly that many when the application has returned -/
+theorem C06_linear_cost (xs : List Int) (ss : List Closed.Stg) (hpos : ∀ n, Closed.Stg.take n ∈ ss → 0 < n) :
+    ∀ s, SReach (Closed.thenM (Closed.chainM xs ss) Closed.forEachM).M s →
+      (Closed.thenM (Closed.chainM xs ss) Closed.forEachM).nexts s.st ≤ (sem (Closed.chainPipe xs ss) none).2 ∧
+      (s.stack = [] → s.tr ≠ [] →
+        (Closed.thenM (Closed.chainM xs ss) Closed.forEachM).nexts s.st = (sem (Closed.chainPipe xs ss) none).2) :=
+  Closed.linear_cost xs ss hpos
+
+/-- laziness: below a `take n` whose upstream stages never drop, the iterator is advanced at most `n` times — whatever follows the
+take and however long the input is -/
+theorem C06_linear_cost_take (xs : List Int) (pre post : List Closed.Stg) (n : Nat) (hpre : ∀ s ∈ pre, s.keeps')
+    (hpos : ∀ m, Closed.Stg.take m ∈ pre ++ .take n :: post → 0 < m) :
+    ∀ s, SReach (Closed.thenM (Closed.chainM xs (pre ++ .take n :: post)) Closed.forEachM).M s →
+      (Closed.thenM (Closed.chainM xs (pre ++ .take n :: post)) Closed.forEachM).nexts s.st ≤ n ∧
+      (n ≤ xs.length → (Closed.thenM (Closed.chainM xs (pre ++ .take n :: post)) Closed.forEachM).nexts s.st < xs.length + 1) :=
+  Closed.linear_cost_take xs pre post n hpre hpos
+
+/-- … and with arbitrary stages above the take: at most the cost of producing `n` outputs of the upper part -/
+theorem C06_linear_cost_take_gen (xs : List Int) (pre post : List Closed.Stg) (n : Nat)
+    (hpos : ∀ m, Closed.Stg.take m ∈ pre ++ .take n :: post → 0 < m) :
+    ∀ s, SReach (Closed.thenM (Closed.chainM xs (pre ++ .take n :: post)) Closed.forEachM).M s →
+      (Closed.thenM (Closed.chainM xs (pre ++ .take n :: post)) Closed.forEachM).nexts s.st ≤ (sem (Closed.chainPipe xs pre) (some n)).2 :=
+  Closed.linear_cost_take_gen xs pre post n hpos
 
 end Cb.Thm
